@@ -74,6 +74,8 @@ def corpus_cases(ctx):
 
 
 TRICKY_VALID = [
+    'def e { splitters: u return "a" weighted 0.' + "0" * 323 + '5 }', 'def e { splitters: u return "a" weighted 0.' + "0" * 320 + '1, "b" weighted 0.' + "0" * 320 + '1 }',
+    'def e { splitters: u return "a" weighted 0.' + "0" * 400 + '1, "b" weighted 0.' + "0" * 315 + '3 }',
     'def e{return"a"weighted 1}', "def e{return'a'weighted 1,'b'weighted 2}", 'def e { return "a" weighted 007 }', 'def e { return "a" weighted 1.50 }',
     'def e { return - 5 weighted 1, -5 weighted 1, -0 weighted 1, -0.0 weighted 1, 0 weighted 1 }', 'def e { return "it\'s" weighted 1, \'say "hi"\' weighted 1 }',
     'def e { splitters: u if x == 1 { return "a" weighted 1 } else    if x == 2 { return "b" weighted 1 } else\tif x == 3 { return "c" weighted 1 } elseif x == 4 { return "d" weighted 1 } else\nif x == 5 { return "e" weighted 1 } }',
